@@ -5893,6 +5893,16 @@ class SFTPClient:
         await self._handler.wait_closed()
 
 
+def _is_same_file(file1: object, file2: object) -> bool:
+    """Return whether two open file objects refer to the same file"""
+
+    try:
+        return os.path.samestat(os.fstat(file1.fileno()), # type: ignore
+                                os.fstat(file2.fileno())) # type: ignore
+    except (AttributeError, OSError, ValueError):
+        return False
+
+
 class SFTPServerHandler(SFTPHandler):
     """An SFTP server session handler"""
 
@@ -6792,6 +6802,10 @@ class SFTPServerHandler(SFTPHandler):
         dst = self._file_handles.get(write_to_handle)
 
         if src and dst:
+            if src is dst or _is_same_file(src, dst):
+                raise SFTPFailure('Source and destination of copy '
+                                  'are the same file')
+
             read_to_end = read_from_length == 0
 
             while read_to_end or read_from_length:
